@@ -30,10 +30,14 @@ CONTENTS["cmulti"] = b"".join(b'{"i":%d}\n' % i for i in range(20000))   # 20 00
 FILES = {
     "good.json": "cj", "bad.json": "cbad", "null.json": "cnull", "doc.yaml": "cy", "UP.YML": "ceq", "conf.toml": "ct",
     "big.json": "cbig", "bigbad.json": "cbigbad", "huge.json": "chuge", "hugemap.json": "chugemap", "multi.json": "cmulti",
-    "empty.yaml": "cempty", "empty.json": "cempty", "bigstr.json": "cbigstr",
+    "empty.yaml": "cempty", "empty.json": "cempty", "bigstr.json": "cbigstr", "longbad.toml": "clongbad", "bom.json": "cbomj",
     "data.msgpack": "cm", "noext": "cy", "text.txt": "ctext", "wrong.json": "cy", "a.b.yaml": "ceq", ".yaml": "ct", "Mixed.JsOn": "cy",
 }
 CONTENTS["cempty"] = b""
+# a TOML syntax error on a 600-byte line: the parser quotes the line, underlines it, and only then gives its reason
+CONTENTS["clongbad"] = ('k = ["' + "\u00e9" * 290 + '", 1 2]\n').encode()
+# a byte order mark in front of JSON text: not JSON to the library, whichever way the bytes are supplied
+CONTENTS["cbomj"] = b"\xef\xbb\xbf" + b'{"a":1}\n'
 # > 8 KiB of compact JSON output in which a separator / a digit falls on the 8192nd byte (both parities)
 CONTENTS["calign0"] = b'["",' + b",".join([b"1"] * 6000) + b"]\n"
 CONTENTS["calign1"] = b'["x",' + b",".join([b"1"] * 6000) + b"]\n"
@@ -260,10 +264,26 @@ def run_real(binary, argv, root, stdout_kind, stdin_bytes):
         return {"exit": rc if rc >= 0 else None, "signal": -rc if rc < 0 else 0, "stdout": out, "stderr": errbuf[0] if errbuf else b"", "timeout": to}
     if stdout_kind == "stdinfile":
         # standard input redirected from a REGULAR FILE (xt < file): still a stream to xt, never a mapping
+        # The file starts with bytes that an earlier consumer has already taken (the descriptor's offset is past them):
+        # xt's standard input is what follows the offset, not the whole file.
         path = os.path.join(root, "stdin-content.bin")
+        taken = b"[0]\n"
         with open(path, "wb") as f:
-            f.write(stdin_bytes)
-        return cli.run_xt(binary, argv, stdin_path=path, cwd=cwd, timeout=90)
+            f.write(taken + stdin_bytes)
+        with open(path, "rb") as fin:
+            fin.seek(len(taken))
+            os.lseek(fin.fileno(), len(taken), os.SEEK_SET)
+            with cli.FORK_LOCK:
+                p = subprocess.Popen([binary] + argv, stdin=fin, stdout=subprocess.PIPE, stderr=subprocess.PIPE, cwd=cwd)
+            try:
+                out, err = p.communicate(timeout=90)
+                to = False
+            except subprocess.TimeoutExpired:
+                p.kill()
+                out, err = p.communicate()
+                to = True
+        rc = p.returncode
+        return {"exit": rc if rc >= 0 else None, "signal": -rc if rc < 0 else 0, "stdout": out or b"", "stderr": err, "timeout": to}
     if stdout_kind == "file":
         path = os.path.join(root, "out-%d-%d.bin" % (os.getpid(), id(argv) % 100000))
         with open(path, "wb") as f:
@@ -349,8 +369,21 @@ def judge(pred, real, table):
             bad.append("stderr is not a plain 'xt error: ...' line: %r" % se[:200])
     elif pred["stderr"] == "error_in":
         name = "standard input" if pred["errpath"] == "-" else pred["errpath"]
-        if not se.startswith(b"xt error in " + name.encode() + b": "):
+        head = b"xt error in " + name.encode() + b": "
+        if not se.startswith(head):
             bad.append("stderr does not begin 'xt error in %s: ': %r" % (name, se[:200]))
+        else:
+            # .. and what follows is the library's own message for that input, whole (C11 seen from the command line)
+            p = pred["errpath"]
+            if p == "-":
+                content, mode = pred.get("stdin_content", STDIN), "reader"
+            else:
+                content, mode = FILES.get(p) or FIFOS.get(p), ("reader" if p in READER_FILES else "slice")
+            r = table.get((content, pred.get("errsel", "detect"), pred["to"], mode)) if content else None
+            # (on a TOML target that has already written its one document the refusal comes from the output, not from this input)
+            toml_used = pred["to"] == "toml" and len(pred.get("done", [])) > 0
+            if r and r["res"] == "err" and r.get("msg") and not toml_used and se != head + r["msg"].encode() + b"\n":
+                bad.append("stderr is not the library's message for %s: %r, expected %r" % (name, se[:300], (head + r["msg"].encode())[:300]))
     return bad
 
 
